@@ -2,6 +2,7 @@ use serde_json::Value;
 
 use crate::engine::{Ctx, Outcome};
 
+pub mod c01;
 pub mod c06;
 pub mod c10;
 pub mod c14;
@@ -14,6 +15,10 @@ pub struct Prop {
 
 pub fn lookup(id: &str) -> Option<Prop> {
     Some(match id {
+        "C01" => Prop {
+            check: c01::check,
+            replay: c01::replay,
+        },
         "C06" => Prop {
             check: c06::check,
             replay: c06::replay,
